@@ -476,6 +476,73 @@ def r11_split_or_guard(text):
         count += 1
 
 
+def r10_break_value(text, types):
+    """R10: `let x = loop { .. break v; .. };` becomes `let x: T; loop { .. { x = v; break; } .. }` (Verus rejects break-with-value).
+    `types` maps the bound name to its type (from the contract file; a wrong type is a rustc error, i.e. exit 2)."""
+    count = 0
+    while True:
+        toks = lex(text)
+        hit = None
+        for k, t in enumerate(toks):
+            if t.kind == 'ident' and t.text == 'let':
+                n1 = _next_code(toks, k)
+                n2 = _next_code(toks, n1)
+                n3 = _next_code(toks, n2)
+                n4 = _next_code(toks, n3)
+                if (n4 < len(toks) and toks[n1].kind == 'ident' and toks[n2].text == '=' and toks[n3].text == 'loop' and toks[n4].text == '{'):
+                    hit = (k, n1, n3, n4, match_close(toks, n4))
+                    break
+        if not hit:
+            return text, count
+        k, n1, n3, n4, close = hit
+        name = toks[n1].text
+        if name not in types:
+            raise Undecided('R10: no type given for `let %s = loop {..}`' % name)
+        # rewrite `break EXPR;` at this loop's own level (nested loops / closures keep theirs)
+        out = []
+        j = n4 + 1
+        depth_skip = []
+        while j < close:
+            t = toks[j]
+            if t.kind == 'ident' and t.text in ('loop', 'while', 'for'):
+                # copy a nested loop verbatim
+                b = j
+                while toks[b].text != '{':
+                    b += 1
+                e = match_close(toks, b)
+                out.append(''.join(x.text for x in toks[j:e + 1]))
+                j = e + 1
+                continue
+            if t.kind == 'ident' and t.text == 'break':
+                nx = _next_code(toks, j)
+                if toks[nx].text == ';':
+                    out.append('break')
+                    j += 1
+                    continue
+                # expression up to the ';' at depth 0
+                e, depth = nx, 0
+                while True:
+                    x = toks[e]
+                    if x.kind == 'punct':
+                        if x.text in '([{': depth += 1
+                        elif x.text in ')]}': depth -= 1
+                        elif x.text == ';' and depth == 0:
+                            break
+                    e += 1
+                expr = ''.join(x.text for x in toks[nx:e]).strip()
+                out.append('{ %s = %s; break; }' % (name, expr))
+                j = e + 1
+                count += 1
+                continue
+            out.append(t.text)
+            j += 1
+        after = _next_code(toks, close)
+        tail_start = after + 1 if (after < len(toks) and toks[after].text == ';') else close + 1
+        pre = ''.join(x.text for x in toks[:k])
+        post = ''.join(x.text for x in toks[tail_start:])
+        text = '%slet %s: %s;\n        loop {%s}%s' % (pre, name, types[name], ''.join(out), post)
+
+
 def find_loops(text):
     """positions (char offsets of the opening '{' of the body) of `loop`, `while`, `for` loops in order"""
     toks = lex(text)
